@@ -15,7 +15,11 @@ LEAN = os.path.join(VERIF, 'lean')
 BUILD = os.path.join(VERIF, '.build')
 TARGET = os.path.join(BUILD, 'target')
 HARNESS = os.path.join(VERIF, 'harness')
-DRV = os.path.join(LEAN, '.lake', 'build', 'bin', 'drv')
+DRV = os.path.join(VERIF, 'drvmux')          # routes each request to its component's driver executable
+DRV_EXES = ['drv', 'drv_walk', 'drv_print', 'drv_cli', 'drv_boxp', 'drv_stream', 'drv_time']
+# which driver executables a property's check needs (all are built; only these can break it)
+DRV_NEEDED = {'C04': ['drv_time'], 'C05': ['drv_stream'], 'C11': ['drv_time'], 'C13': ['drv_print'], 'C14': ['drv_cli'],
+              'C15': ['drv_walk'], 'C17': ['drv_stream'], 'C19': ['drv_print']}
 S4H = os.path.join(TARGET, 'release', 's4h')
 S4 = os.path.join(TARGET, 'release', 's4')
 ALLOWED_AXIOMS = {'propext', 'Classical.choice', 'Quot.sound'}
@@ -102,14 +106,31 @@ def lake_build(targets, timeout=3000):
 
 
 def step_drv(ctx):
+    """Build the model driver executables. A failure counts against this property only if the
+    property needs that executable (DRV_NEEDED; default: the core `drv`)."""
     t = time.time()
-    rc, out, err, _ = lake_build(['drv'])
-    ctx.steps['drv'] = {'rc': rc, 'wall_s': round(time.time() - t, 2)}
-    if rc != 0:
-        msg = (out + err).decode(errors='replace')
-        ctx.broken.append({'kind': 'model-build', 'name': 'drv', 'detail': tail_errors(msg)})
-        ctx.log('drv build FAILED')
-    return rc == 0
+    need = DRV_NEEDED.get(ctx.pid, ['drv'])
+    info = {}
+    ok = True
+    for exe in DRV_EXES:
+        if exe not in need and ctx.pid != 'setup':
+            # other slices' drivers are built by their own checks / by setup
+            continue
+        rc, out, err, _ = lake_build([exe])
+        info[exe] = rc
+        if rc != 0:
+            # remove a stale binary so the multiplexer answers `driver-unavailable`
+            try:
+                os.unlink(os.path.join(LEAN, '.lake', 'build', 'bin', exe))
+            except OSError:
+                pass
+            if exe in need:
+                ok = False
+                msg = (out + err).decode(errors='replace')
+                ctx.broken.append({'kind': 'model-build', 'name': exe, 'detail': tail_errors(msg)})
+                ctx.log(exe, 'build FAILED')
+    ctx.steps['drv'] = {'rc': info, 'wall_s': round(time.time() - t, 2)}
+    return ok
 
 
 def tail_errors(msg, n=1500):
